@@ -416,12 +416,23 @@ std::string render_xta(const Model& m)
                 os << (i ? ", " : "") << t.bps[i].docname();
             os << ";\n";
         }
-        for (auto& l : t.locs)
-            if (l.committed)
-                os << "commit " << l.docname() << ";\n";
-        for (auto& l : t.locs)
-            if (l.urgent)
-                os << "urgent " << l.docname() << ";\n";
+        // both forms of the flag sections: one statement per location (even template index) or one list (odd)
+        const bool as_list = (&t - &m.templs[0]) % 2 == 1;
+        for (const char* flag : {"commit", "urgent"}) {
+            bool first = true;
+            for (auto& l : t.locs) {
+                if (!(flag[0] == 'c' ? l.committed : l.urgent))
+                    continue;
+                if (!as_list)
+                    os << flag << " " << l.docname() << ";\n";
+                else {
+                    os << (first ? std::string{flag} + " " : std::string{", "}) << l.docname();
+                    first = false;
+                }
+            }
+            if (as_list && !first)
+                os << ";\n";
+        }
         os << "init " << t.locs[t.init].docname() << ";\n";
         if (!t.edges.empty()) {
             os << "trans\n";
